@@ -226,11 +226,13 @@ func vFPFields(out []vFP, tag string, fields []*descriptorpb.FieldDescriptorProt
 		if f.Type == nil {
 			out = append(out, vFP{s: "ftype:<nil>"})
 		}
+		// field options other than jstype (jstype is the governed one; whether a FieldOptions message exists is
+		// therefore not part of the frame): absent message == every option unset
+		var packed, deprecated, lazy *bool
 		if o := f.Options; o != nil {
-			// field options other than jstype (jstype is the governed one for fields)
-			out = append(out, vFP{s: "fopts", n: 1})
-			out = append(out, vFP{s: "ctype", n: int32(o.GetCtype())}, vFP{s: "packed", n: vB(o.Packed)}, vFP{s: "deprecated", n: vB(o.Deprecated)}, vFP{s: "lazy", n: vB(o.Lazy)})
+			packed, deprecated, lazy = o.Packed, o.Deprecated, o.Lazy
 		}
+		out = append(out, vFP{s: "ctype", n: int32(f.Options.GetCtype())}, vFP{s: "packed", n: vB(packed)}, vFP{s: "deprecated", n: vB(deprecated)}, vFP{s: "lazy", n: vB(lazy)})
 	}
 	return out
 }
